@@ -155,7 +155,7 @@ def e_stmts(stmts, kind, ind, out):
   if not stmts: out.append(" " * ind + "pass")
   for st in stmts:
     k = st[0]
-    if k == "=": out.append(" " * ind + f"{e_ref(st[1])} {op} {e_expr(st[2])}")
+    if k == "=": out.append(" " * ind + f"{e_ref(st[1])} {st[3] if len(st) > 3 else op} {e_expr(st[2])}")
     elif k == "tmp": out.append(" " * ind + f"{st[1]} = {e_expr(st[2])}")
     elif k == "if":
       out.append(" " * ind + f"if {e_expr(st[1])}:")
@@ -192,6 +192,9 @@ def emit(top, tag):
     for n, cn in childnames:
       out.append(f"    s.{n} = {cn}()")
     for a, b in cmp.get("connects", []):
+      if b[0] == "lam":
+        out.append(f"    {e_ref(a)} //= lambda: {e_expr(b[1])}")
+        continue
       side = lambda x: e_ref(x) if x[0] == "ref" else (str(x[1]) if x[0] == "i" else e_expr(x))
       out.append(f"    connect( {side(a)}, {side(b)} )")
     for bname, kind, stmts in cmp.get("blocks", []):
